@@ -72,6 +72,10 @@ def dec_value(e, m, s, X, Z):
     xs = rule_values(m, s, X, Z)
     if isinstance(e, (int, float, SymReal)):
         return [e]
+    if isinstance(e, lp.Convex):
+        # a convex expression of (event-wise) static decisions: its documented value at scenario s's decisions
+        from ..spec import atoms
+        return list(views.flat(atoms.den_convex(e, xs)))
     if isinstance(e, (lp.DecVar, lp.DecVarSub)):
         e = e.to_affine()
     if isinstance(e, lp.RoAffine):
@@ -206,6 +210,8 @@ def build(c, variant):
         gs.exptset(rsome.E(z) >= el, rsome.E(z) <= eh)
         w.own = {"support": gsup, "events": [([0, 1], el, eh)], "pub": None}
         w.gs = gs
+    if variant.get("adapt") == "event-y":
+        y.adapt(1)                     # only the bound of the convex constraints is event-wise; the atoms' arguments are static
     if variant.get("adapt") == "event-by-label":
         x.adapt(labels[1])
     if variant.get("adapt") in ("event", "both"):
@@ -244,6 +250,22 @@ def build(c, variant):
         g = c.fresh_real("g")
         m.st(rsome.E(e1) <= g)
         w.E.append([e1 - g])
+    if variant.get("convex"):
+        # convex constraints over event-wise static decisions: they hold for the decisions of EVERY scenario
+        cv1 = abs(x[0] - 2 * x[1]) + x[1]
+        g1 = c.fresh_real("g1")
+        m.st(cv1 <= g1)
+        w.R.append(cv1 - g1)
+        cv2 = rsome.norm(x, 1) - x[0]
+        m.st(cv2 <= 6)
+        w.R.append(cv2 - 6)
+        # the atom on the left, an expression with ANOTHER event partition on the right, both spellings
+        cv3 = rsome.norm(x, 1)
+        m.st(cv3 <= y + 7)
+        w.R.append(cv3 - y - 7)
+        cv4 = abs(x[1])
+        m.st(y + 8 >= cv4)
+        w.R.append(cv4 - y - 8)
     m.st(x <= 10, x >= -10, y <= 10, y >= -10)
     w.m, w.x, w.y, w.z, w.fs, w.nz, w.S = m, x, y, z, fs, nz, S
     return w
@@ -278,6 +300,8 @@ VARIANTS = {
     "event,E-affine,econstr,expt-overlap": dict(obj="E-affine", expt="overlap", adapt="event", econstr=True),
     "static,E-affine,expt-all,econstr-with-its-own-set": dict(obj="E-affine", expt="all", econstr="own-set"),
     "static,R-objective,expt-per-scenario,econstr-with-its-own-set": dict(obj="R", expt="per-scenario", econstr="own-set"),
+    "event,E-affine,expt-all,convex-constraints": dict(obj="E-affine", expt="all", adapt="event", convex=True),
+    "event-wise-bound,E-affine,expt-all,convex-constraints": dict(obj="E-affine", expt="all", adapt="event-y", convex=True),
     "static,E-affine,labels=(1,2,3),event-of-two-by-label": dict(obj="E-affine", expt="first-two-by-label", labels=[1, 2, 3]),
     "event,E-affine,labels=(2,0,1),event-of-two-by-label": dict(obj="E-affine", expt="first-two-by-label", labels=[2, 0, 1], adapt="event-by-label"),
 }
